@@ -26,6 +26,7 @@ var (
 	flagPool   = flag.String("pool", "text", "substitution pool: text|csv|html|json|md")
 	flagUnq    = flag.Bool("unquote", false, "input lines are TLC CSVWrite lines: a TLA+ string literal holding JSON")
 	flagSelf   = flag.String("selftest", "", "run the lexer self-tests (html|md|json|all) and exit")
+	flagBytes  = flag.Bool("bytes", false, "item strings are byte strings in Latin-1 transport (CSV family)")
 	flagMode   = flag.String("mode", "scenario", "scenario | registry | conc (special drivers)")
 )
 
@@ -56,6 +57,7 @@ func main() {
 	w := bufio.NewWriterSize(outf, 1<<20)
 	defer w.Flush()
 
+	bytesMode = *flagBytes
 	facets := map[string]bool{}
 	for _, f := range strings.Split(*flagFacets, ",") {
 		if f != "" {
